@@ -18,6 +18,7 @@ import (
 	"verif/props/c13"
 	"verif/props/c14"
 	"verif/props/c15"
+	"verif/props/c16"
 	"verif/props/c18"
 	"verif/props/c19"
 )
@@ -40,6 +41,7 @@ func Registry() map[string]func() *mon.Spec {
 		"C13": c13.Spec,
 		"C14": c14.Spec,
 		"C15": c15.Spec,
+		"C16": c16.Spec,
 		"C18": c18.Spec,
 		"C19": c19.Spec,
 	}
